@@ -99,10 +99,12 @@ var stmtForms = []struct{ name, body string }{
 	{"case-lists", "\tr := 0\n\tswitch a {\n\tcase 1, 2:\n\t\tr = 1\n\tcase g(b), b, 7:\n\t\tr = 2\n\tdefault:\n\t\tr = 3\n\t}\n\tswitch {\n\tcase ok(a), ok(b):\n\t\tr += 10\n\tcase a == b, a+1 == b:\n\t\tr += 20\n\t}\n\tfor i := 0; i < 2; i++ {\n\t\tswitch i + a {\n\t\tcase 0, 1:\n\t\t\tcontinue\n\t\tcase 2, 3:\n\t\t\tbreak\n\t\t}\n\t\tr += 100\n\t}\n\treturn r\n"},
 	{"variadic-calls", "\tt := &T{v: a}\n\tsum(a)\n\tsum(a, 1, b)\n\tsum(a, mk(b)...)\n\tt.vs()\n\tt.vs(1, 200)\n\tx := sum(a, b) + t.vs(7, 8, 9)\n\tif x > 3 {\n\t\treturn sum(x, mk(b)...)\n\t}\n\treturn spread(a, b)\n"},
 	{"make-forms", "\tm := make(map[string]int, 4)\n\tn := make(map[int]string)\n\ts := make([]int, 2)\n\tm[\"k\"] = a\n\tn[b] = \"v\"\n\ts[1] = b\n\tif a > 0 {\n\t\tq := make(map[int]int, a)\n\t\tq[1] = 2\n\t\treturn len(q) + len(m)\n\t}\n\treturn len(m) + len(n) + len(s) + s[1]\n"},
+	{"fresh-locals", "\ts := scale(1.5, 2.5)\n\tu := narrow(200)\n\tr := fresh()\n\tw := narrow(byte(a)) + fresh2(b)\n\tfmt.Println(s, u, r, w)\n\tq := scale(float64(a), 0.5)\n\tr2 := fresh() + fresh2(a)\n\tfmt.Println(q, r2)\n\treturn r + r2\n"},
 	{"blank-params", "\tx := bp(a, b, 5)\n\tbp(1, 2, 3)\n\ty := bq(a, b)\n\treturn x + y + bp(b, a, a)\n"},
 }
 
 var stmtExtras = map[string]string{
+	"fresh-locals":   "func scale(x, y float64) float64 {\n\tt := x * y\n\tu := t + 0.25\n\treturn u\n}\n\nfunc narrow(x byte) int {\n\tt := x + x\n\tv := int8(x)\n\tv += 100\n\treturn int(t) + int(v)\n}\n\nfunc fresh() int {\n\tn := 7\n\tm := 3\n\tk := 250\n\tk += 10\n\treturn n/2 + m/2 + k\n}\n\nfunc fresh2(p int) int {\n\tn := 9\n\tfor i := 0; i < 2; i++ {\n\t\th := 5\n\t\tn += h / 2\n\t}\n\treturn n/2 + p\n}\n\n",
 	"variadic-calls": "func sum(base int, rest ...int) int {\n\tfor _, r := range rest {\n\t\tbase += r\n\t}\n\treturn base\n}\n\nfunc (t *T) vs(rest ...byte) int {\n\tn := t.v\n\tfor _, r := range rest {\n\t\tn += int(r * r)\n\t}\n\treturn n\n}\n\nfunc spread(x int, y int) int {\n\treturn sum(x, mk(y)...)\n}\n\n",
 	"blank-params":   "func bp(_ int, _ int, c int) int {\n\td := c + 1\n\treturn d\n}\n\nfunc bq(_ int, _ int) int {\n\treturn 4\n}\n\n",
 }
